@@ -69,8 +69,25 @@ CHECKS["C06"] = {
     "note": _PIPE_NOTE + " 1e-9 almost_equal band of decompose_translation assumed empty; fully symbolic 2x2 parts on both gradient and shape only in the thorough tier (10-20 min per template).",
     "design_ref": "DESIGN.md 2/C06",
 }
+CHECKS.update({
+    "C01": {
+        "text": "Whole conversion (library call and the CLI's _run in-process) on the template families plus templates with unsupported/ignorable content, for ndigits 0/3(/6) x allow_text x drop_unsupported, with round() following its contract and areas/opacities symbolic; an independent README-grammar checker reads every output: structural clauses concrete per path, numeric clauses (group opacity strictly in (0,1), every path number rounded to ndigits by term shape) as SMT validity queries.",
+        "note": _PIPE_NOTE.replace("round is the identity in this harness; ", "") + " absl flag parsing outside.",
+        "design_ref": "DESIGN.md 2/C01",
+    },
+    "C07": {
+        "text": "Two/three conversions inside one symbolic path (out2 = convert(out1)) with a shared symbol table: abstract Skia answers are functions of the region term, round obeys |R(x)-x|<=half ulp and R(R(x))=R(x); same XML structure and every pair of numbers provably equal; checkpicosvg(out1) == (). Concrete replays compare bytes.",
+        "note": _PIPE_NOTE.replace("round is the identity in this harness; ", "") + " Skia simplify idempotence is modelled, not decided.",
+        "design_ref": "DESIGN.md 2/C07",
+    },
+    "C08": {
+        "text": "Conversion of the template families plus id-sharing templates (gradient shared by transformed/untransformed/possibly invisible shapes, id'd shape stroked, id'd group instanced twice, ids colliding with generated ones); which shapes survive and which gradients are cloned depends on numeric forks the solver quantifies over; oracle per output: ids unique, every url(#)/href resolves to a gradient in defs, every gradient referenced.",
+        "note": _PIPE_NOTE,
+        "design_ref": "DESIGN.md 2/C08",
+    },
+})
 NOT_APPLICABLE = {
     "C17": "termination/time-bound over cyclic reference graphs and libxml2 entity loading: no numeric or byte-level input to make symbolic, non-termination is not an assertion a bounded symbolic path can refute (budget exhausted = inconclusive); enumerating reference graphs under a watchdog would be a different technique family (DESIGN.md section 3)",
 }
-for _p in ["C01","C07","C08","C10","C14","C15","C16"]:
+for _p in ["C10","C14","C15","C16"]:
     NOT_APPLICABLE.setdefault(_p, PENDING)
